@@ -20,6 +20,7 @@ package main
 import (
 	"bytes"
 	"fmt"
+	"go/ast"
 	"go/constant"
 	"go/token"
 	"go/types"
@@ -115,24 +116,26 @@ func detach(v reflect.Value) {
 // ---- the inliner
 
 type inliner struct {
-	p        *Prog
-	cand     map[*ssa.Function]bool
-	state    map[*ssa.Function]int // 1 in progress, 2 done
-	changed  map[*ssa.Function]bool
-	contPhis map[*ssa.Phi]bool // phis created for the results of an inlined call
-	inlined  map[*ssa.Function]int
-	skipped  map[ssa.Instruction]bool
-	Log      []string
-	nCalls   int
-	nDevirt  int
-	nThread  int
-	dead     map[*ssa.Function]bool
-	errs     []string
+	p         *Prog
+	cand      map[*ssa.Function]bool
+	state     map[*ssa.Function]int // 1 in progress, 2 done
+	changed   map[*ssa.Function]bool
+	contPhis  map[*ssa.Phi]bool   // phis created for the results of an inlined call
+	literals  []*ssa.Function     // function literals made from go/defer of a helper
+	inlAllocs map[*ssa.Alloc]bool // allocations that came with an inlined body
+	inlined   map[*ssa.Function]int
+	skipped   map[ssa.Instruction]bool
+	Log       []string
+	nCalls    int
+	nDevirt   int
+	nThread   int
+	dead      map[*ssa.Function]bool
+	errs      []string
 }
 
 func (p *Prog) inlineHelpers(pinned func(*ssa.Function) bool) *inliner {
 	il := &inliner{p: p, cand: map[*ssa.Function]bool{}, state: map[*ssa.Function]int{}, changed: map[*ssa.Function]bool{},
-		contPhis: map[*ssa.Phi]bool{}, inlined: map[*ssa.Function]int{}, skipped: map[ssa.Instruction]bool{}, dead: map[*ssa.Function]bool{}}
+		contPhis: map[*ssa.Phi]bool{}, inlAllocs: map[*ssa.Alloc]bool{}, inlined: map[*ssa.Function]int{}, skipped: map[ssa.Instruction]bool{}, dead: map[*ssa.Function]bool{}}
 	var all []*ssa.Function
 	var addAnon func(fn *ssa.Function)
 	addAnon = func(fn *ssa.Function) {
@@ -265,7 +268,7 @@ func (il *inliner) dynamicallyCallable(fn *ssa.Function) bool {
 }
 
 func (il *inliner) inlinable(c *ssa.Function) bool {
-	if !il.cand[c] || c.Recover != nil || len(c.FreeVars) > 0 || len(c.Blocks) == 0 || len(c.Blocks[0].Preds) > 0 {
+	if !il.cand[c] || len(c.FreeVars) > 0 || len(c.Blocks) == 0 || len(c.Blocks[0].Preds) > 0 {
 		return false
 	}
 	// defers: each must dominate every RunDefers and not sit in a cycle
@@ -282,16 +285,50 @@ func (il *inliner) inlinable(c *ssa.Function) bool {
 		if d.(*ssa.Defer).DeferStack != nil {
 			return false
 		}
+		if dc := d.(*ssa.Defer).Call.StaticCallee(); dc != nil && callsRecover(dc) {
+			return false
+		}
 		if blockInCycle(d.Block()) {
 			return false
 		}
 		for _, r := range runs {
-			if !d.Block().Dominates(r.Block()) {
+			// at each return the defer has either certainly run or certainly not
+			if !d.Block().Dominates(r.Block()) && blockReaches(d.Block(), r.Block()) {
 				return false
 			}
 		}
 	}
 	return true
+}
+
+func callsRecover(fn *ssa.Function) bool {
+	found := false
+	eachInstr(fn, func(in ssa.Instruction) {
+		if c, ok := in.(ssa.CallInstruction); ok {
+			if b, ok := c.Common().Value.(*ssa.Builtin); ok && b.Name() == "recover" {
+				found = true
+			}
+		}
+	})
+	return found
+}
+
+func blockReaches(from, to *ssa.BasicBlock) bool {
+	seen := map[*ssa.BasicBlock]bool{}
+	st := []*ssa.BasicBlock{from}
+	for len(st) > 0 {
+		x := st[len(st)-1]
+		st = st[:len(st)-1]
+		if x == to {
+			return true
+		}
+		if seen[x] {
+			continue
+		}
+		seen[x] = true
+		st = append(st, x.Succs...)
+	}
+	return false
 }
 
 func blockInCycle(b *ssa.BasicBlock) bool {
@@ -340,10 +377,17 @@ func (il *inliner) process(fn *ssa.Function) {
 				il.process(c)
 				if !il.inlinable(c) {
 					il.skipped[in] = true
+					il.Log = append(il.Log, fmt.Sprintf("%s: call of %s kept (recover, conditional defer or closure variables)", fnName(fn), fnName(c)))
 					continue
 				}
 				target, callee = call, c
 				break scan
+			}
+		}
+		if target == nil {
+			if il.closureifyOne(fn) {
+				il.changed[fn] = true
+				continue
 			}
 		}
 		if target != nil {
@@ -363,8 +407,20 @@ func (il *inliner) process(fn *ssa.Function) {
 		return
 	}
 	il.finish(fn)
-	for il.threadOne(fn) {
+	for il.liftAlloc(fn) {
+		il.finish(fn)
+	}
+	for il.fuseOne(fn) {
+		il.finish(fn)
+	}
+	for il.threadOne(fn) || il.foldConstIf(fn) || il.fuseOne(fn) {
 		il.nThread++
+		il.finish(fn)
+	}
+	for il.elideStructCopy(fn) {
+		il.finish(fn)
+	}
+	for il.splitReturn(fn) {
 		il.finish(fn)
 	}
 	if d := os.Getenv("LIMECHECK_DUMPFN"); d != "" && strings.Contains(fn.String(), d) {
@@ -379,7 +435,53 @@ func (il *inliner) process(fn *ssa.Function) {
 func newBlock(fn *ssa.Function, comment string) *ssa.BasicBlock {
 	b := &ssa.BasicBlock{Comment: comment}
 	setBlockParent(b, fn)
+	inlBlocks[b] = true
 	return b
+}
+
+// inlBlocks: blocks made by the normalisation (copies of a helper's blocks, continuations, threaded edges).
+var inlBlocks = map[*ssa.BasicBlock]bool{}
+
+// fuseOne merges a block made by the normalisation into its only predecessor when that predecessor only jumps to it.
+func (il *inliner) fuseOne(fn *ssa.Function) bool {
+	for _, a := range fn.Blocks {
+		if len(a.Succs) != 1 || len(a.Instrs) == 0 {
+			continue
+		}
+		b := a.Succs[0]
+		if b == a || len(b.Preds) != 1 || b == fn.Recover || b == fn.Blocks[0] || !(inlBlocks[a] || inlBlocks[b]) {
+			continue
+		}
+		if _, isJump := a.Instrs[len(a.Instrs)-1].(*ssa.Jump); !isJump {
+			continue
+		}
+		if len(b.Instrs) > 0 {
+			if _, isPhi := b.Instrs[0].(*ssa.Phi); isPhi {
+				continue // finish() removes single-edge phis first
+			}
+		}
+		a.Instrs = a.Instrs[:len(a.Instrs)-1]
+		for _, in := range b.Instrs {
+			appendInstr(a, in)
+		}
+		a.Succs = b.Succs
+		for _, s := range a.Succs {
+			replacePred(s, b, a)
+		}
+		if inlBlocks[b] {
+			inlBlocks[a] = true
+		}
+		b.Instrs, b.Succs, b.Preds = nil, nil, nil
+		var blocks []*ssa.BasicBlock
+		for _, x := range fn.Blocks {
+			if x != b {
+				blocks = append(blocks, x)
+			}
+		}
+		fn.Blocks = blocks
+		return true
+	}
+	return false
 }
 
 func appendInstr(b *ssa.BasicBlock, in ssa.Instruction) {
@@ -440,7 +542,27 @@ func (il *inliner) inlineCall(g *ssa.Function, call *ssa.Call, c *ssa.Function) 
 		vm[prm] = call.Call.Args[i]
 	}
 	var clones []*ssa.BasicBlock
-	for _, cb := range c.Blocks {
+	var cblocks []*ssa.BasicBlock // the callee's blocks reachable from its entry (not its recover block)
+	{
+		seen := map[*ssa.BasicBlock]bool{}
+		var walk func(b *ssa.BasicBlock)
+		walk = func(b *ssa.BasicBlock) {
+			if seen[b] {
+				return
+			}
+			seen[b] = true
+			for _, s := range b.Succs {
+				walk(s)
+			}
+		}
+		walk(c.Blocks[0])
+		for _, b := range c.Blocks {
+			if seen[b] {
+				cblocks = append(cblocks, b)
+			}
+		}
+	}
+	for _, cb := range cblocks {
 		nb := newBlock(g, cb.Comment+"·"+c.Name())
 		bm[cb] = nb
 		clones = append(clones, nb)
@@ -452,7 +574,7 @@ func (il *inliner) inlineCall(g *ssa.Function, call *ssa.Call, c *ssa.Function) 
 	var rets []ret
 	var defers []*ssa.Defer // clones, in program order
 	deferBlock := map[*ssa.Defer]*ssa.BasicBlock{}
-	for _, cb := range c.Blocks {
+	for _, cb := range cblocks {
 		nb := bm[cb]
 		for _, in := range cb.Instrs {
 			ni := cloneInstr(in)
@@ -466,8 +588,11 @@ func (il *inliner) inlineCall(g *ssa.Function, call *ssa.Call, c *ssa.Function) 
 				continue
 			}
 			appendInstr(nb, ni)
-			if a, ok := ni.(*ssa.Alloc); ok && !a.Heap {
-				g.Locals = append(g.Locals, a)
+			if a, ok := ni.(*ssa.Alloc); ok {
+				il.inlAllocs[a] = true
+				if !a.Heap {
+					g.Locals = append(g.Locals, a)
+				}
 			}
 		}
 		for _, s := range cb.Succs {
@@ -493,8 +618,17 @@ func (il *inliner) inlineCall(g *ssa.Function, call *ssa.Call, c *ssa.Function) 
 	for _, d := range defers {
 		remap(d)
 	}
+	il.reparentLiterals(g, c, clones)
+	for _, d := range defers {
+		var rands []*ssa.Value
+		for _, r := range d.Operands(rands) {
+			if f, ok := (*r).(*ssa.Function); ok && f.Parent() == c {
+				*r = il.cloneFn(g, f, false)
+			}
+		}
+	}
 	// deferred calls run where the callee ran its defers
-	for _, cb := range c.Blocks {
+	for _, cb := range cblocks {
 		nb := bm[cb]
 		var out []ssa.Instruction
 		for _, in := range nb.Instrs {
@@ -831,6 +965,39 @@ func knownNonNilValue(v ssa.Value) bool {
 }
 
 // evalOnEdge evaluates a condition of block M for the values its phis take on edge i: 1 true, 0 false, -1 unknown.
+// guardedNonNil: every path to the end of block P has passed the true edge of `v != nil` (or the false edge of `v == nil`).
+func guardedNonNil(v ssa.Value, P *ssa.BasicBlock) bool {
+	for x := P; x != nil; x = x.Idom() {
+		d := x.Idom()
+		if d == nil || len(x.Preds) != 1 || x.Preds[0] != d || len(d.Instrs) == 0 {
+			continue
+		}
+		ifi, ok := d.Instrs[len(d.Instrs)-1].(*ssa.If)
+		if !ok || d.Succs[0] == d.Succs[1] {
+			continue
+		}
+		bo, ok := ifi.Cond.(*ssa.BinOp)
+		if !ok {
+			continue
+		}
+		var other ssa.Value
+		if bo.X == v {
+			other = bo.Y
+		} else if bo.Y == v {
+			other = bo.X
+		} else {
+			continue
+		}
+		if c, ok := other.(*ssa.Const); !ok || !c.IsNil() {
+			continue
+		}
+		if bo.Op == token.NEQ && d.Succs[0] == x || bo.Op == token.EQL && d.Succs[1] == x {
+			return true
+		}
+	}
+	return false
+}
+
 func evalOnEdge(M *ssa.BasicBlock, v ssa.Value, i int) int {
 	val := func(x ssa.Value) ssa.Value {
 		if phi, ok := x.(*ssa.Phi); ok && phi.Block() == M {
@@ -881,9 +1048,9 @@ func evalOnEdge(M *ssa.BasicBlock, v ssa.Value, i int) int {
 					eq = 0
 				}
 			}
-		case yc && cy.IsNil() && knownNonNilValue(x):
+		case yc && cy.IsNil() && (knownNonNilValue(x) || guardedNonNil(x, M.Preds[i])):
 			eq = 0
-		case xc && cx.IsNil() && knownNonNilValue(y):
+		case xc && cx.IsNil() && (knownNonNilValue(y) || guardedNonNil(y, M.Preds[i])):
 			eq = 0
 		}
 		if eq < 0 {
@@ -933,7 +1100,7 @@ func (il *inliner) threadOne(fn *ssa.Function) bool {
 				pure = false
 			}
 		}
-		if !pure || !hasCont || len(phis) == 0 {
+		if !pure || !(hasCont || inlBlocks[M]) || len(phis) == 0 {
 			continue
 		}
 		for i, P := range M.Preds {
@@ -948,7 +1115,13 @@ func (il *inliner) threadOne(fn *ssa.Function) bool {
 			if T == M || P == M {
 				continue
 			}
-			if _, isJump := P.Instrs[len(P.Instrs)-1].(*ssa.Jump); !isJump {
+			nM := 0
+			for _, sc := range P.Succs {
+				if sc == M {
+					nM++
+				}
+			}
+			if nM != 1 {
 				continue
 			}
 			il.thread(fn, M, i, P, T, phis)
@@ -1123,4 +1296,596 @@ func (il *inliner) thread(fn *ssa.Function, M *ssa.BasicBlock, i int, P, T *ssa.
 			replaceUses(fn, old, resolve(old))
 		}
 	}
+}
+
+// elideStructCopy: a helper that returned a struct it built (`return T{...}`) leaves, once inlined, a temporary that is
+// filled field by field, loaded whole and stored whole into the caller's variable. The temporary is merged into that
+// variable so that the caller reads as if it had built the value itself.
+func (il *inliner) elideStructCopy(fn *ssa.Function) bool {
+	for _, b := range fn.Blocks {
+		for _, in := range b.Instrs {
+			tmp, ok := in.(*ssa.Alloc)
+			if !ok || !il.inlAllocs[tmp] {
+				continue
+			}
+			if _, isStruct := tmp.Type().(*types.Pointer).Elem().Underlying().(*types.Struct); !isStruct {
+				continue
+			}
+			var load *ssa.UnOp
+			good := true
+			for _, r := range *tmp.Referrers() {
+				switch r := r.(type) {
+				case *ssa.FieldAddr:
+				case *ssa.UnOp:
+					if r.Op != token.MUL || load != nil {
+						good = false
+					}
+					load = r
+				default:
+					good = false
+				}
+			}
+			if !good || load == nil || len(*load.Referrers()) != 1 {
+				continue
+			}
+			st, ok := (*load.Referrers())[0].(*ssa.Store)
+			if !ok || st.Val != ssa.Value(load) {
+				continue
+			}
+			dst, ok := st.Addr.(*ssa.Alloc)
+			if !ok || dst == tmp || !instrDominates(dst, tmp) {
+				continue
+			}
+			for _, r := range *dst.Referrers() {
+				if r != ssa.Instruction(st) && !instrDominates(st, r) {
+					good = false
+				}
+			}
+			// every field write of the temporary happens before the copy
+			for _, r := range *tmp.Referrers() {
+				if r != ssa.Instruction(load) && !instrDominates(r, load) {
+					good = false
+				}
+			}
+			if !good {
+				continue
+			}
+			replaceUses(fn, tmp, dst)
+			drop := map[ssa.Instruction]bool{tmp: true, load: true, st: true}
+			for _, bb := range fn.Blocks {
+				var out []ssa.Instruction
+				for _, x := range bb.Instrs {
+					if !drop[x] {
+						out = append(out, x)
+					}
+				}
+				bb.Instrs = out
+			}
+			return true
+		}
+	}
+	return false
+}
+
+// splitReturn: `return helper(...)` leaves, once the helper is inlined, one return block fed by a phi over the helper's
+// own returns. The block is duplicated into each of them, which gives back one return per outcome.
+func (il *inliner) splitReturn(fn *ssa.Function) bool {
+	for _, M := range fn.Blocks {
+		if len(M.Preds) < 2 || len(M.Succs) != 0 || len(M.Instrs) == 0 {
+			continue
+		}
+		if _, ok := M.Instrs[len(M.Instrs)-1].(*ssa.Return); !ok {
+			continue
+		}
+		var phis []*ssa.Phi
+		var body []ssa.Instruction
+		ok, hasCont := true, false
+		for _, in := range M.Instrs {
+			switch x := in.(type) {
+			case *ssa.Phi:
+				phis = append(phis, x)
+				if il.contPhis[x] {
+					hasCont = true
+				}
+				continue
+			case *ssa.BinOp, *ssa.ChangeInterface, *ssa.MakeInterface, *ssa.ChangeType, *ssa.Convert, *ssa.Extract, *ssa.FieldAddr, *ssa.RunDefers, *ssa.Return:
+			case *ssa.UnOp:
+				if x.Op == token.ARROW {
+					ok = false
+				}
+			default:
+				ok = false
+			}
+			body = append(body, in)
+		}
+		if !ok || !hasCont || len(body) > 8 {
+			continue
+		}
+		did := false
+		for i := len(M.Preds) - 1; i >= 0; i-- {
+			P := M.Preds[i]
+			if _, isJump := P.Instrs[len(P.Instrs)-1].(*ssa.Jump); !isJump || P == M {
+				continue
+			}
+			vm := map[ssa.Value]ssa.Value{}
+			for _, phi := range phis {
+				vm[phi] = phi.Edges[i]
+			}
+			P.Instrs = P.Instrs[:len(P.Instrs)-1]
+			for _, in := range body {
+				ni := cloneInstr(in)
+				var rands []*ssa.Value
+				for _, r := range ni.Operands(rands) {
+					if nv, ok := vm[*r]; ok {
+						*r = nv
+					}
+				}
+				if v, ok := in.(ssa.Value); ok {
+					vm[v] = ni.(ssa.Value)
+				}
+				appendInstr(P, ni)
+			}
+			P.Succs = nil
+			M.Preds = append(M.Preds[:i:i], M.Preds[i+1:]...)
+			for _, phi := range phis {
+				phi.Edges = append(phi.Edges[:i:i], phi.Edges[i+1:]...)
+			}
+			did = true
+		}
+		if did {
+			return true
+		}
+	}
+	return false
+}
+
+// foldConstIf: a branch whose condition became a constant (a helper's only remaining result was nil, say) is replaced by a jump.
+func (il *inliner) foldConstIf(fn *ssa.Function) bool {
+	for _, b := range fn.Blocks {
+		if len(b.Instrs) == 0 {
+			continue
+		}
+		ifi, ok := b.Instrs[len(b.Instrs)-1].(*ssa.If)
+		if !ok || b.Succs[0] == b.Succs[1] {
+			continue
+		}
+		r := evalConstCond(ifi.Cond)
+		if r < 0 {
+			continue
+		}
+		keep, drop := b.Succs[0], b.Succs[1]
+		if r == 0 {
+			keep, drop = drop, keep
+		}
+		removePredEdge(drop, b)
+		j := &ssa.Jump{}
+		setInstrBlock(j, b)
+		b.Instrs[len(b.Instrs)-1] = j
+		b.Succs = []*ssa.BasicBlock{keep}
+		return true
+	}
+	return false
+}
+
+func evalConstCond(v ssa.Value) int {
+	switch v := v.(type) {
+	case *ssa.Const:
+		if v.Value != nil && v.Value.Kind() == constant.Bool {
+			if constant.BoolVal(v.Value) {
+				return 1
+			}
+			return 0
+		}
+	case *ssa.UnOp:
+		if v.Op == token.NOT {
+			if r := evalConstCond(v.X); r >= 0 {
+				return 1 - r
+			}
+		}
+	case *ssa.BinOp:
+		if v.Op != token.EQL && v.Op != token.NEQ {
+			return -1
+		}
+		cx, xc := v.X.(*ssa.Const)
+		cy, yc := v.Y.(*ssa.Const)
+		eq := -1
+		switch {
+		case xc && yc:
+			if cx.IsNil() && cy.IsNil() {
+				eq = 1
+			} else if cx.Value != nil && cy.Value != nil && cx.Value.Kind() == cy.Value.Kind() {
+				if constant.Compare(cx.Value, token.EQL, cy.Value) {
+					eq = 1
+				} else {
+					eq = 0
+				}
+			}
+		case yc && cy.IsNil() && knownNonNilValue(v.X), xc && cx.IsNil() && knownNonNilValue(v.Y):
+			eq = 0
+		}
+		if eq < 0 {
+			return -1
+		}
+		if v.Op == token.NEQ {
+			return 1 - eq
+		}
+		return eq
+	}
+	return -1
+}
+
+func zeroValue(t types.Type) ssa.Value {
+	if b, ok := t.Underlying().(*types.Basic); ok {
+		switch {
+		case b.Info()&types.IsBoolean != 0:
+			return ssa.NewConst(constant.MakeBool(false), t)
+		case b.Info()&types.IsString != 0:
+			return ssa.NewConst(constant.MakeString(""), t)
+		case b.Info()&types.IsNumeric != 0:
+			return ssa.NewConst(constant.MakeInt64(0), t)
+		}
+	}
+	return ssa.NewConst(nil, t)
+}
+
+// liftAlloc promotes to registers a local that came with an inlined body and is only loaded and stored (go/ssa keeps the
+// result variables of a function with defers in memory; once the helper's defers run as plain calls they are ordinary
+// locals). The values are re-established with the usual on-demand phi placement.
+func (il *inliner) liftAlloc(fn *ssa.Function) bool {
+	for _, b0 := range fn.Blocks {
+		for _, in0 := range b0.Instrs {
+			a, ok := in0.(*ssa.Alloc)
+			if !ok || !il.inlAllocs[a] || a.Heap {
+				continue
+			}
+			good := true
+			for _, r := range *a.Referrers() {
+				switch r := r.(type) {
+				case *ssa.Store:
+					if r.Addr != ssa.Value(a) || r.Val == ssa.Value(a) {
+						good = false
+					}
+				case *ssa.UnOp:
+					if r.Op != token.MUL {
+						good = false
+					}
+				default:
+					good = false
+				}
+			}
+			if !good {
+				continue
+			}
+			T := a.Type().(*types.Pointer).Elem()
+			repl := map[ssa.Value]ssa.Value{}
+			resolve := func(v ssa.Value) ssa.Value {
+				for {
+					nv, ok := repl[v]
+					if !ok {
+						return v
+					}
+					v = nv
+				}
+			}
+			defEnd := map[*ssa.BasicBlock]ssa.Value{}
+			defStart := map[*ssa.BasicBlock]ssa.Value{}
+			type pend struct {
+				load *ssa.UnOp
+				b    *ssa.BasicBlock
+			}
+			var pending []pend
+			drop := map[ssa.Instruction]bool{a: true}
+			for _, b := range fn.Blocks {
+				var cur ssa.Value
+				for _, in := range b.Instrs {
+					switch x := in.(type) {
+					case *ssa.Alloc:
+						if x == a {
+							cur = zeroValue(T)
+						}
+					case *ssa.Store:
+						if x.Addr == ssa.Value(a) {
+							cur = x.Val
+							drop[in] = true
+						}
+					case *ssa.UnOp:
+						if x.Op == token.MUL && x.X == ssa.Value(a) {
+							drop[in] = true
+							if cur != nil {
+								repl[x] = cur
+							} else {
+								pending = append(pending, pend{x, b})
+							}
+						}
+					}
+				}
+				if cur != nil {
+					defEnd[b] = cur
+				}
+			}
+			var created []*ssa.Phi
+			var readStart, readEnd func(b *ssa.BasicBlock) ssa.Value
+			readEnd = func(b *ssa.BasicBlock) ssa.Value {
+				if v, ok := defEnd[b]; ok {
+					return resolve(v)
+				}
+				v := readStart(b)
+				defEnd[b] = v
+				return v
+			}
+			readStart = func(b *ssa.BasicBlock) ssa.Value {
+				if v, ok := defStart[b]; ok {
+					return resolve(v)
+				}
+				switch len(b.Preds) {
+				case 0:
+					v := zeroValue(T)
+					defStart[b] = v
+					return v
+				case 1:
+					v := readEnd(b.Preds[0])
+					defStart[b] = v
+					return v
+				}
+				np := &ssa.Phi{Comment: a.Comment}
+				setRegType(np, T)
+				setRegPos(np, a.Pos())
+				setInstrBlock(np, b)
+				defStart[b] = np
+				created = append(created, np)
+				il.contPhis[np] = true
+				for _, pr := range b.Preds {
+					np.Edges = append(np.Edges, readEnd(pr))
+				}
+				var only ssa.Value
+				trivial := true
+				for _, e := range np.Edges {
+					e = resolve(e)
+					if e == ssa.Value(np) {
+						continue
+					}
+					if only == nil {
+						only = e
+					} else if only != e {
+						trivial = false
+					}
+				}
+				if trivial && only != nil {
+					repl[np] = only
+					return only
+				}
+				return np
+			}
+			for _, pd := range pending {
+				repl[pd.load] = readStart(pd.b)
+			}
+			for _, np := range created {
+				if _, gone := repl[np]; gone {
+					continue
+				}
+				for k := range np.Edges {
+					np.Edges[k] = resolve(np.Edges[k])
+				}
+				np.Block().Instrs = append([]ssa.Instruction{np}, np.Block().Instrs...)
+			}
+			for _, bb := range fn.Blocks {
+				var out []ssa.Instruction
+				for _, x := range bb.Instrs {
+					if !drop[x] {
+						out = append(out, x)
+					}
+				}
+				bb.Instrs = out
+			}
+			var rands []*ssa.Value
+			for _, bb := range fn.Blocks {
+				for _, x := range bb.Instrs {
+					rands = x.Operands(rands[:0])
+					for _, r := range rands {
+						if *r != nil {
+							if nv := resolve(*r); nv != *r {
+								*r = nv
+							}
+						}
+					}
+				}
+			}
+			var locals []*ssa.Alloc
+			for _, l := range fn.Locals {
+				if l != a {
+					locals = append(locals, l)
+				}
+			}
+			fn.Locals = locals
+			return true
+		}
+	}
+	return false
+}
+
+// closureifyOne: `go c.helper(x)` and `defer c.helper(x)` with an unknown private helper become `go func() { … }()` /
+// `defer func() { … }()` over a copy of the helper whose parameters are captured variables — the shape the goroutine and
+// deferred-block rules are written for. The copy is a function literal of fn and is normalised like any other.
+func (il *inliner) closureifyOne(fn *ssa.Function) bool {
+	for _, b := range fn.Blocks {
+		for idx, in := range b.Instrs {
+			var cc *ssa.CallCommon
+			switch x := in.(type) {
+			case *ssa.Go:
+				cc = &x.Call
+			case *ssa.Defer:
+				cc = &x.Call
+			default:
+				continue
+			}
+			if il.skipped[in] {
+				continue
+			}
+			c := cc.StaticCallee()
+			if c == nil || !il.cand[c] || len(c.FreeVars) > 0 || len(c.Blocks) == 0 {
+				continue
+			}
+			if _, isClosure := cc.Value.(*ssa.MakeClosure); isClosure {
+				continue
+			}
+			if il.state[c] == 1 {
+				il.skipped[in] = true
+				continue
+			}
+			il.process(c)
+			lit := il.cloneAsLiteral(fn, c)
+			mc := &ssa.MakeClosure{Fn: lit, Bindings: append([]ssa.Value(nil), cc.Args...)}
+			setRegType(mc, lit.Signature)
+			setRegPos(mc, in.Pos())
+			setInstrBlock(mc, b)
+			b.Instrs = append(b.Instrs[:idx:idx], append([]ssa.Instruction{mc}, b.Instrs[idx:]...)...)
+			cc.Value = mc
+			cc.Args = nil
+			cc.Method = nil
+			il.inlined[c]++
+			il.nCalls++
+			il.Log = append(il.Log, fmt.Sprintf("%s: go/defer %s → function literal", fnName(fn), fnName(c)))
+			il.finishLiteral(lit)
+			return true
+		}
+	}
+	return false
+}
+
+func setFnField(fn *ssa.Function, name string, set func(p unsafe.Pointer)) {
+	set(unexported(reflect.ValueOf(fn).Elem(), name))
+}
+
+func (il *inliner) cloneAsLiteral(g, c *ssa.Function) *ssa.Function {
+	return il.cloneFn(g, c, true)
+}
+
+// cloneFn copies src as a new function literal of parent. With paramsAsFreeVars its parameters become captured
+// variables and its signature func(); otherwise parameters and free variables are kept. Literals nested in src are
+// copied along, so that every function literal has the function it textually sits in (after normalisation) as parent.
+func (il *inliner) cloneFn(g, c *ssa.Function, paramsAsFreeVars bool) *ssa.Function {
+	lit := &ssa.Function{Signature: c.Signature, Pkg: g.Pkg, Prog: g.Prog}
+	if paramsAsFreeVars {
+		lit.Signature = types.NewSignatureType(nil, nil, nil, nil, nil, false)
+	} else if c.Signature.Recv() != nil {
+		lit.Signature = types.NewSignatureType(nil, nil, nil, c.Signature.Params(), c.Signature.Results(), c.Signature.Variadic())
+	}
+	setFnField(lit, "name", func(p unsafe.Pointer) { *(*string)(p) = fmt.Sprintf("%s$%d", g.Name(), len(g.AnonFuncs)+1) })
+	setFnField(lit, "pos", func(p unsafe.Pointer) { *(*token.Pos)(p) = c.Pos() })
+	setFnField(lit, "parent", func(p unsafe.Pointer) { *(**ssa.Function)(p) = g })
+	setFnField(lit, "anonIdx", func(p unsafe.Pointer) { *(*int32)(p) = int32(len(g.AnonFuncs)) })
+	if syn := c.Syntax(); syn != nil {
+		setFnField(lit, "syntax", func(p unsafe.Pointer) { *(*ast.Node)(p) = syn })
+	}
+	g.AnonFuncs = append(g.AnonFuncs, lit)
+	vm := map[ssa.Value]ssa.Value{}
+	newFV := func(name string, t types.Type, pos token.Pos) *ssa.FreeVar {
+		fv := &ssa.FreeVar{}
+		v := reflect.ValueOf(fv).Elem()
+		*(*string)(unexported(v, "name")) = name
+		*(*types.Type)(unexported(v, "typ")) = t
+		*(*token.Pos)(unexported(v, "pos")) = pos
+		*(**ssa.Function)(unexported(v, "parent")) = lit
+		lit.FreeVars = append(lit.FreeVars, fv)
+		return fv
+	}
+	for _, prm := range c.Params {
+		if paramsAsFreeVars {
+			vm[prm] = newFV(prm.Name(), prm.Type(), prm.Pos())
+			continue
+		}
+		np := &ssa.Parameter{}
+		v := reflect.ValueOf(np).Elem()
+		*(*string)(unexported(v, "name")) = prm.Name()
+		*(**types.Var)(unexported(v, "object")) = prm.Object().(*types.Var)
+		*(*types.Type)(unexported(v, "typ")) = prm.Type()
+		*(**ssa.Function)(unexported(v, "parent")) = lit
+		lit.Params = append(lit.Params, np)
+		vm[prm] = np
+	}
+	for _, fv := range c.FreeVars {
+		vm[fv] = newFV(fv.Name(), fv.Type(), fv.Pos())
+	}
+	bm := map[*ssa.BasicBlock]*ssa.BasicBlock{}
+	for _, cb := range c.Blocks {
+		nb := newBlock(lit, cb.Comment)
+		nb.Index = cb.Index
+		bm[cb] = nb
+		lit.Blocks = append(lit.Blocks, nb)
+	}
+	for _, cb := range c.Blocks {
+		nb := bm[cb]
+		for _, in := range cb.Instrs {
+			ni := cloneInstr(in)
+			if v, ok := in.(ssa.Value); ok {
+				vm[v] = ni.(ssa.Value)
+			}
+			appendInstr(nb, ni)
+			if a, ok := ni.(*ssa.Alloc); ok && !a.Heap {
+				lit.Locals = append(lit.Locals, a)
+			}
+		}
+		for _, s := range cb.Succs {
+			nb.Succs = append(nb.Succs, bm[s])
+		}
+		for _, pr := range cb.Preds {
+			nb.Preds = append(nb.Preds, bm[pr])
+		}
+	}
+	for _, nb := range lit.Blocks {
+		for _, in := range nb.Instrs {
+			var rands []*ssa.Value
+			for _, r := range in.Operands(rands) {
+				if nv, ok := vm[*r]; ok {
+					*r = nv
+				}
+			}
+		}
+	}
+	if c.Recover != nil {
+		lit.Recover = bm[c.Recover]
+	}
+	il.reparentLiterals(lit, c, lit.Blocks)
+	il.literals = append(il.literals, lit)
+	il.finish(lit)
+	return lit
+}
+
+// reparentLiterals: the instructions in blocks were copied from src into g; every function literal of src they
+// mention gets its own copy under g.
+func (il *inliner) reparentLiterals(g, src *ssa.Function, blocks []*ssa.BasicBlock) {
+	copies := map[*ssa.Function]*ssa.Function{}
+	for _, b := range blocks {
+		for _, in := range b.Instrs {
+			var rands []*ssa.Value
+			for _, r := range in.Operands(rands) {
+				f, ok := (*r).(*ssa.Function)
+				if !ok || f.Parent() != src {
+					continue
+				}
+				cp := copies[f]
+				if cp == nil {
+					cp = il.cloneFn(g, f, false)
+					copies[f] = cp
+				}
+				*r = cp
+			}
+		}
+	}
+}
+
+func (il *inliner) finishLiteral(lit *ssa.Function) {
+	il.changed[lit] = true
+	il.state[lit] = 0
+	il.process(lit)
+}
+
+// isDead: fn, or a function it is nested in, was inlined everywhere and is referenced by nothing.
+func (il *inliner) isDead(fn *ssa.Function) bool {
+	for f := fn; f != nil; f = f.Parent() {
+		if il.dead[f] {
+			return true
+		}
+	}
+	return false
 }
